@@ -438,6 +438,40 @@ def r3_union(prog, res):
 
 
 # --------------------------------------------------------------------------- R4 / R5
+def _cursor_of_same_array(prog, f, a, b):
+    """`P <op> A + k` where A is a global array and P a global pointer that is only ever set to A, &A[i], P+-1: both operands point
+    into the one object A, so their order is the order of two indices - no allocation address is involved.  -> reason or None"""
+    for p_, lim in ((a, b), (b, a)):
+        if p_ is None or lim is None or p_["k"] != "Ref" or p_.get("dk") != "global" or "*" not in f.ty(p_):
+            continue
+        arr = None
+        for y in walk(lim):
+            if y["k"] == "Ref" and y.get("dk") == "global" and "[" in f.ty(y):
+                arr = y
+        if arr is None:
+            continue
+        ok = True
+        nw = 0
+        for g in prog.all_functions():
+            for y in g.walk():
+                tgt = None
+                if y["k"] in ("Assign", "CompoundAssign"):
+                    tgt, rhs = strip(y["ch"][0]), strip(y["ch"][1])
+                    if tgt is not None and tgt["k"] == "Ref" and tgt.get("n") == p_["n"] and tgt.get("dk") == "global":
+                        nw += 1
+                        if y["k"] == "Assign" and not any(z["k"] == "Ref" and z.get("n") == arr["n"] for z in walk(rhs)):
+                            ok = False
+                        if y["k"] == "CompoundAssign" and not isinstance((rhs or {}).get("val"), int):
+                            ok = False
+                elif y["k"] == "Unary" and ("++" in (y.get("op") or "") or "--" in (y.get("op") or "")):
+                    tgt = strip(y["ch"][0])
+                    if tgt is not None and tgt["k"] == "Ref" and tgt.get("n") == p_["n"] and tgt.get("dk") == "global":
+                        nw += 1
+        if ok and nw:
+            return "`%s` is a cursor into the array `%s` (every assignment sets it to the array, an element of it or one step further): both operands lie in one object" % (p_["n"], arr["n"])
+    return None
+
+
 def r4_r5_sources(prog, res):
     n_src = 0
     ncmp = 0
@@ -465,6 +499,8 @@ def r4_r5_sources(prog, res):
                 if ("*" in ta or "[" in ta) and ("*" in tb or "[" in tb):
                     ncmp += 1
                     why = PTR_IDIOM.get(f.name)
+                    if why is None:
+                        why = _cursor_of_same_array(prog, f, strip(x["ch"][0]), strip(x["ch"][1]))
                     res.add("R5.no_address_arithmetic", "R5|%s|%s|ptr-order" % (rel, f.name), f.where(x), why is not None,
                             "frozen idiom: " + why if why else
                             "%s orders two pointers (%s): an order that depends on where objects were allocated" % (f.name, expr_str(x)[:60]))
